@@ -206,13 +206,18 @@ func (sc *sliceContainers) Update(key uint64, fn func(*Container, bool) (*Contai
 		nc, write = fn(sc.containers[i], true)
 		if write {
 			sc.containers[i] = nc
+			// the lookaside must not keep returning the replaced container
+			if key == sc.lastKey {
+				sc.lastContainer = nc
+			}
 		}
 	} else {
 		nc, write = fn(nil, false)
 		// don't expand the slice just to add a nil container, we
 		// could return that anyway
 		if write && nc != nil {
-			sc.insertAt(key, nc, -i-1)
+			// seek already returned the insertion index
+			sc.insertAt(key, nc, i)
 		}
 	}
 }
@@ -225,6 +230,10 @@ func (sc *sliceContainers) UpdateEvery(fn func(uint64, *Container, bool) (*Conta
 		nc, write := fn(sc.keys[i], c, true)
 		if write {
 			sc.containers[i] = nc
+			// the lookaside must not keep returning the replaced container
+			if sc.keys[i] == sc.lastKey {
+				sc.lastContainer = nc
+			}
 		}
 	}
 }
